@@ -279,6 +279,12 @@ def sweep_workload(task):
                 if gen2 and gen2_done < gen2 and res.get("open") == "ok" and model == "process" and o.ticket % 7 == 0:
                     gen2_done += 1
                     out["gen2_images"] += sweep_gen2(base, img, seed, wargs, meta, res, out, keep_dir, wid)
+                    # ... and the same crash image recovered by the next session itself, with a smaller memtable
+                    imgp = os.path.join(base, "imgp")
+                    shutil.rmtree(imgp, ignore_errors=True)
+                    fs.materialize(imgp, "process")
+                    out["gen2_images"] += sweep_gen2(base, imgp, seed + 1, wargs, meta, res, out, keep_dir, wid, direct=True)
+                    shutil.rmtree(imgp, ignore_errors=True)
     except Exception as e:  # tool trouble inside a worker: report, do not judge
         out["tool_error"] = "%s: %s" % (type(e).__name__, e)
     finally:
@@ -286,10 +292,12 @@ def sweep_workload(task):
     return out
 
 
-def sweep_gen2(base, img, seed, wargs, meta, res, out, keep_dir, wid):
+def sweep_gen2(base, img, seed, wargs, meta, res, out, keep_dir, wid, direct=False):
     """the recovered image (after the probe commit and a clean close by crash_reopen) receives more commits under the
-    recorder, then is crashed again; the base state is what the second open of crash_reopen reported."""
-    sec = res.get("second") or {}
+    recorder, then is crashed again; the base state is what the second open of crash_reopen reported.
+    direct: `img` is the untouched crash image - the workload's own open IS the recovery (with half the memtable size, so
+    that the replay has to split segments), commits follow without a close in between, then the crash."""
+    sec = {"open": "ok", "scan": res["scan"]} if direct else (res.get("second") or {})
     if sec.get("open") != "ok":
         return 0
     g2 = os.path.join(base, "gen2")
@@ -301,6 +309,12 @@ def sweep_gen2(base, img, seed, wargs, meta, res, out, keep_dir, wid):
     # fewer transactions in the second generation
     if "--txns" in args2:
         args2[args2.index("--txns") + 1] = "10"
+    if direct:
+        if "--memtable" in args2:
+            i = args2.index("--memtable") + 1
+            args2[i] = str(max(int(args2[i]) // 2, 12288))
+        if "--no-close" not in args2:
+            args2.append("--no-close")
     ops, meta2 = run_workload(g2, seed + 7, args2, gen=1, first_txn=first)
     if ops is None or meta2.get("open_failed"):
         out["violations"].append({"prop": "C07", "class": "reopen_refused", "detail": "generation 2: %s" % json.dumps(meta2)[:300]})
@@ -410,9 +424,17 @@ def model_check(ctx):
         r = tlc.run("storage", "StorageMC", "StorageMC.cfg", cfg_text=text, timeout=3000, coverage=False,
                     out_name="storage_mc_%s_%s" % (ctx.pid, ctx.tier))
         r["constants"] = ["MaxTxn=%d" % ctx.pick(3, 4), "MaxRot=%d" % ctx.pick(2, 3), "MaxCompact=%d" % ctx.pick(1, 2),
-                          'Variant="repo"']
+                          'Variant="repo"', "MaxCrash=1", "RecCap=1", 'RecoverVariant="repo"']
         r["invariants"] = ["TypeOK", "Reopenable", "Durable", "Atomic", "Prefix"]
         ctx.add_tlc(r)
+    # sessions: the pinned start-up (a split segment flushed in part, writer reopened on the old log number) must
+    # still lose acknowledged transactions after a crash + recovery in the model
+    text = tlc.cfg_variant("storage", "StorageMC.cfg", subst={"RecoverVariant": '"orig"'}, drop=["INVARIANTS"],
+                           add=["INVARIANT Durable"])
+    r = tlc.run("storage", "StorageMC", "StorageMC_recover_orig.cfg", cfg_text=text, timeout=600, coverage=False,
+                must_pass=False, out_name="storage_recover_orig_%s" % ctx.pid)
+    if "Durable" not in r["violated"]:
+        raise core.ToolError('the Storage model with RecoverVariant "orig" no longer violates Durable')
     # the model of the pinned behaviour must still exhibit the repaired defects (otherwise the model lost its teeth)
     for inv in ("Reopenable", "Durable", "Atomic", "Prefix"):
         text = tlc.cfg_variant("storage", "StorageMC.cfg", subst={"Variant": '"orig"'}, drop=["INVARIANTS"],
